@@ -301,6 +301,14 @@ func c04SkipField(typ, field string) bool {
 		return field == "ctx" || field == "ctxCancel" || field == "sender" || field == "writeChan" || field == "writeOnce" || field == "nextFrame"
 	case "quic.ReceiveStream":
 		return field == "sender" || field == "readChan" || field == "readOnce"
+	// parts kinds-*: the streams' sender is the Conn literal of the harness (its framer, flow
+	// controller and peer parameters are dumped / keyed on their own); ctx is context.Background
+	case "quic.streamsMap":
+		return field == "sender" || field == "ctx"
+	case "quic.Stream":
+		return field == "sender"
+	case "quic.uniStreamSender":
+		return field == "streamSender"
 	}
 	return false
 }
